@@ -593,12 +593,15 @@ func ParseSpecLines(pkg, file string, lines []string, lineNos []int) (*SpecFile,
 				}
 				cur.Clauses = append(cur.Clauses, c)
 			case "callsonly":
-				c := &Clause{Kind: kw, File: file, Line: l.n, Src: rest}
-				for _, k := range strings.Split(rest, ",") {
-					if k = strings.TrimSpace(k); k != "" {
-						c.Props = append(c.Props, k) // reuse Props as the list of allowed callees
+				c := &Clause{Kind: kw, File: file, Line: l.n, Src: rest, Label: "only"}
+				if strings.HasPrefix(rest, "[") {
+					j := strings.Index(rest, "]")
+					for _, p := range strings.Split(rest[1:j], ",") {
+						c.Props = append(c.Props, strings.TrimSpace(p))
 					}
+					rest = strings.TrimSpace(rest[j+1:])
 				}
+				c.Key = rest
 				cur.Clauses = append(cur.Clauses, c)
 			case "atcall":
 				// atcall <calleeKey> [props] label: expr
